@@ -212,7 +212,30 @@ func resolveRoles(p *Prog) *Roles {
 		return TypeIs(f.Type(), "sync.RWMutex") || TypeIs(f.Type(), "sync.Mutex") || TypeIs(f.Type(), "*sync.RWMutex")
 	}, []string{"Put", "Get", "Commit"}, "mu")
 	r.BatchCommitted = p.FieldByUse(r.Batch, "committed flag", ptrTo("bool"), []string{"Put", "Get", "Commit"}, "committed")
-	r.BatchID = p.FieldByUse(r.Batch, "batch id", ptrTo("github.com/bwmarrin/snowflake.ID"), []string{"Commit"}, "batchID")
+	// batch id: the Batch field whose value is stored into LogRecord.BatchID by a Batch method (whatever its type)
+	r.BatchID = nil
+	for _, fn := range p.LibFuncs() {
+		if RecvNamed(fn) != r.Batch {
+			continue
+		}
+		for _, b := range fn.Blocks {
+			for _, in := range b.Instrs {
+				if f, _, val := StoreField(in); f != nil && f.Name() == "BatchID" {
+					if bf := LastField(Unwrap(val)); bf != nil {
+						st := r.Batch.Underlying().(*types.Struct)
+						for i := 0; i < st.NumFields(); i++ {
+							if st.Field(i) == bf {
+								r.BatchID = bf
+							}
+						}
+					}
+				}
+			}
+		}
+	}
+	if r.BatchID == nil {
+		r.BatchID = p.FieldByUse(r.Batch, "batch id", func(f *types.Var) bool { return f.Name() == "batchID" }, nil, "batchID")
+	}
 	r.BatchStaged = p.FieldByUse(r.Batch, "staged", ptrTo("[]*"+df+".LogRecord"), []string{"Commit"}, "staged")
 	r.BatchOpts = p.FieldByUse(r.Batch, "options", ptrTo(root+".BatchOptions"), nil, "options")
 
